@@ -61,7 +61,8 @@ package state
 //@   trusted
 //@   ensures err != nil ==> unavail(err)
 //@   requires account != nil
-//@   modifies GGen, GActB, GActS, GDebB, GDebS, GAcctSum, GWrites, GNonce
+//@   modifies GGen, GActB, GActS, GDebB, GDebS, GAcctSum, GWrites, GNonce, abciAPI.GTreeW
+//@   ensures abciAPI.OnlyTree(s.ms)
 //@   ensures err == nil ==> mapEq(GNonce, upd(old(GNonce), addr, account.General.Nonce))
 //@   ensures err == nil ==> mapEq(GGen, upd(old(GGen), addr, AGen(account))) && mapEq(GActB, upd(old(GActB), addr, AActB(account))) && mapEq(GActS, upd(old(GActS), addr, AActS(account)))
 //@   ensures err == nil ==> mapEq(GDebB, upd(old(GDebB), addr, ADebB(account))) && mapEq(GDebS, upd(old(GDebS), addr, ADebS(account)))
@@ -79,7 +80,8 @@ package state
 //@   trusted
 //@   ensures err != nil ==> unavail(err)
 //@   requires q != nil
-//@   modifies GCommon, GWrites
+//@   modifies GCommon, GWrites, abciAPI.GTreeW
+//@   ensures abciAPI.OnlyTree(s.ms)
 //@   ensures err == nil ==> GCommon == QV(q) && GWrites > old(GWrites)
 
 //@ func ImmutableState.TotalSupply
@@ -93,7 +95,8 @@ package state
 //@   trusted
 //@   ensures err != nil ==> unavail(err)
 //@   requires q != nil
-//@   modifies GSupply, GWrites
+//@   modifies GSupply, GWrites, abciAPI.GTreeW
+//@   ensures abciAPI.OnlyTree(s.ms)
 //@   ensures err == nil ==> GSupply == QV(q) && GWrites > old(GWrites)
 
 //@ func ImmutableState.LastBlockFees
@@ -107,7 +110,8 @@ package state
 //@   trusted
 //@   ensures err != nil ==> unavail(err)
 //@   requires q != nil
-//@   modifies GLastFees, GWrites
+//@   modifies GLastFees, GWrites, abciAPI.GTreeW
+//@   ensures abciAPI.OnlyTree(s.ms)
 //@   ensures err == nil ==> GLastFees == QV(q) && GWrites > old(GWrites)
 
 //@ func ImmutableState.GovernanceDeposits
@@ -121,7 +125,8 @@ package state
 //@   trusted
 //@   ensures err != nil ==> unavail(err)
 //@   requires q != nil
-//@   modifies GGovDep, GWrites
+//@   modifies GGovDep, GWrites, abciAPI.GTreeW
+//@   ensures abciAPI.OnlyTree(s.ms)
 //@   ensures err == nil ==> GGovDep == QV(q) && GWrites > old(GWrites)
 
 //@ func ImmutableState.Delegation
@@ -135,7 +140,8 @@ package state
 //@   trusted
 //@   ensures err != nil ==> unavail(err)
 //@   requires d != nil
-//@   modifies GDel, GDelSum, GWrites
+//@   modifies GDel, GDelSum, GWrites, abciAPI.GTreeW
+//@   ensures abciAPI.OnlyTree(s.ms)
 //@   ensures err == nil ==> mapEq(GDel, upd(old(GDel), escrowAddr, upd(old(GDel)[escrowAddr], delegatorAddr, QV(&d.Shares))))
 //@   ensures err == nil ==> mapEq(GDelSum, upd(old(GDelSum), escrowAddr, old(GDelSum)[escrowAddr] - old(GDel)[escrowAddr][delegatorAddr] + QV(&d.Shares)))
 //@   ensures err == nil ==> GWrites > old(GWrites)
@@ -162,8 +168,15 @@ package state
 //@   ensures old(QV(total)) > 0 ==> QV(dst) - old(QV(dst)) == min(old(QV(&p.Balance)), div(old(QV(&p.Balance)) * old(QV(amount)), old(QV(total))))
 //@   ensures QV(&p.Balance) + QV(dst) == old(QV(&p.Balance)) + old(QV(dst))
 
+//@ func NewMutableState
+//@   props C08
+//@   modifies nothing
+//@   ensures fresh(result) && result.ms == tree
+//@   note every write of the returned wrapper goes through the tree it was built on (see abciAPI.GTreeW)
+
 //@ func MutableState.Transfer
-//@   props C05
+//@   props C05 C08
+//@   ensures abciAPI.OnlyTree(old(s.ms)) && abciAPI.GCommits == old(abciAPI.GCommits)
 //@   requires s != nil && ctx != nil && amount != nil && QV(amount) >= 0
 //@   ensures err == nil ==> Ledger() == old(Ledger()) && GSupply == old(GSupply)
 //@   ensures err == nil ==> GCommon == old(GCommon) && GGovDep == old(GGovDep) && GLastFees == old(GLastFees)
@@ -250,7 +263,8 @@ package state
 
 //@ func MutableState.SetDebondingDelegation
 //@   trusted
-//@   modifies GDeb, GDebSum, GWrites
+//@   modifies GDeb, GDebSum, GWrites, abciAPI.GTreeW
+//@   ensures abciAPI.OnlyTree(s.ms)
 //@   ensures err != nil && !unavail(err) ==> GWrites == old(GWrites) && mapEq(GDeb, old(GDeb)) && mapEq(GDebSum, old(GDebSum))
 //@   ensures err == nil && d != nil ==> mapEq(GDeb, upd(old(GDeb), delegatorAddr, upd(old(GDeb)[delegatorAddr], escrowAddr, upd(old(GDeb)[delegatorAddr][escrowAddr], uint64(epoch), old(GDeb)[delegatorAddr][escrowAddr][uint64(epoch)] + QV(&d.Shares)))))
 //@   ensures err == nil && d != nil ==> mapEq(GDebSum, upd(old(GDebSum), escrowAddr, old(GDebSum)[escrowAddr] + QV(&d.Shares)))
@@ -260,7 +274,8 @@ package state
 
 //@ func MutableState.RemoveFromDebondingQueue
 //@   trusted
-//@   modifies GWrites
+//@   modifies GWrites, abciAPI.GTreeW
+//@   ensures abciAPI.OnlyTree(s.ms)
 //@   ensures err != nil ==> unavail(err)
 //@   ensures err == nil ==> GWrites > old(GWrites)
 
@@ -289,13 +304,15 @@ package state
 
 //@ func AddStakeClaim
 //@   trusted
-//@   modifies GGen, GActB, GActS, GDebB, GDebS, GAcctSum, GWrites, GNonce
+//@   modifies GGen, GActB, GActS, GDebB, GDebS, GAcctSum, GWrites, GNonce, abciAPI.GTreeW
+//@   ensures abciAPI.OnlyTree(abciAPI.TreeOf(ctx))
 //@   ensures err != nil && !unavail(err) ==> GWrites == old(GWrites)
 //@   ensures err == nil ==> GAcctSum == old(GAcctSum) && mapEq(GGen, old(GGen)) && mapEq(GActB, old(GActB)) && mapEq(GActS, old(GActS)) && mapEq(GDebB, old(GDebB)) && mapEq(GDebS, old(GDebS)) && mapEq(GNonce, old(GNonce))
 //@   note stores the account with one more claim in its stake accumulator iff the escrow balance covers all claims; staking keys live under other key formats than registry keys (the T-KV ghost of the registry is untouched)
 
 //@ func RemoveStakeClaim
 //@   trusted
-//@   modifies GGen, GActB, GActS, GDebB, GDebS, GAcctSum, GWrites, GNonce
+//@   modifies GGen, GActB, GActS, GDebB, GDebS, GAcctSum, GWrites, GNonce, abciAPI.GTreeW
+//@   ensures abciAPI.OnlyTree(abciAPI.TreeOf(ctx))
 //@   ensures err != nil && !unavail(err) ==> GWrites == old(GWrites)
 //@   ensures err == nil ==> GAcctSum == old(GAcctSum) && mapEq(GGen, old(GGen)) && mapEq(GActB, old(GActB)) && mapEq(GActS, old(GActS)) && mapEq(GDebB, old(GDebB)) && mapEq(GDebS, old(GDebS)) && mapEq(GNonce, old(GNonce))
